@@ -213,6 +213,7 @@ Proof. intros Ha Hb. eapply Z.divide_trans; [exact Hb | apply up_align_div; assu
 (* the bit-level forms the source uses *)
 Lemma W_pos : 0 < W. Proof. reflexivity. Qed.
 Lemma W_val : W = 18446744073709551616. Proof. reflexivity. Qed.
+Lemma IMAX_val : IMAX = 9223372036854775807. Proof. reflexivity. Qed.
 
 Lemma land_not64 x m : 0 <= x < W -> 0 <= m < W -> Z.land x (not64 m) = Z.ldiff x m.
 Proof.
